@@ -536,7 +536,7 @@ func runWorker(p *Prop, tier string, seed uint64, w int, mine []int, workDir, ra
 			"-steps", steps, "-cases", strings.Join(args, ","))
 		cmd.Env = append(os.Environ(), "VERIF_WORKER=1")
 		if p.Race {
-			cmd.Env = append(cmd.Env, "GORACE=halt_on_error=0 log_path="+filepath.Join(raceDir, fmt.Sprintf("w%d", w)))
+			cmd.Env = append(cmd.Env, "GORACE=halt_on_error=0 exitcode=0 log_path="+filepath.Join(raceDir, fmt.Sprintf("w%d", w)))
 		}
 		var stderr bytes.Buffer
 		cmd.Stderr = &limitedWriter{buf: &stderr, max: 4 << 20}
@@ -728,6 +728,9 @@ func finish(a *Agg, start time.Time, partial bool) int {
 		}
 		unknown++
 		path := filepath.Join(VerifDir, "replays", fmt.Sprintf("%s-s%d-c%d.json", p.ID, a.Seed, v.Case))
+		if v.Case < 0 {
+			path = filepath.Join(VerifDir, "replays", fmt.Sprintf("%s-s%d-run-%s.json", p.ID, a.Seed, Hash(v.Sig)))
+		}
 		rep := map[string]interface{}{
 			"property": p.ID, "tier": a.Tier, "seed": a.Seed, "case": v.Case,
 			"signature": v.Sig, "message": v.Msg, "script": v.Script, "stderr_tail": v.Stderr,
@@ -920,47 +923,94 @@ func collectRaceReports(dir string, a *Agg, advisory bool) {
 	}
 }
 
+// RaceLockMarkers: function-name fragments that show that an access was made while holding
+// the lock that is supposed to protect it. When one access of a report is a READ made
+// outside that lock and the other access is made inside it, the report is classified as
+// "read-outside-lock:<outermost function of the code under test on the reading stack>"
+// instead of by the function pair, so that the whole family shares one stable signature.
+var RaceLockMarkers []string
+
+type raceAccess struct {
+	write    bool
+	frames   []string
+	site     string // first frame (from innermost) in the code under test or in the harness
+	harness  bool
+	underTst bool
+	outer    string // outermost frame in the code under test
+	locked   bool
+}
+
 // raceKey: each access is attributed to the first frame, walking outward from the
 // innermost one, that belongs to orda or to the harness; the key is the unordered pair of
 // those functions (no line numbers). A report is orda-attributed iff every attributed
 // access is orda code.
 func raceKey(blk string) (string, bool) {
 	lines := strings.Split(blk, "\n")
-	var tops []string
-	nOrda, nHarness := 0, 0
+	var accs []*raceAccess
 	for i := 0; i < len(lines); i++ {
 		l := lines[i]
-		if strings.HasPrefix(l, "Read at ") || strings.HasPrefix(l, "Write at ") || strings.HasPrefix(l, "Previous read at ") || strings.HasPrefix(l, "Previous write at ") ||
-			strings.HasPrefix(l, "Atomic") || strings.HasPrefix(l, "Previous atomic") {
-			site := ""
-			inner := ""
-			for j := i + 1; j < len(lines) && strings.TrimSpace(lines[j]) != ""; j += 2 {
-				fn := strings.TrimSpace(lines[j])
-				if k := strings.LastIndex(fn, "("); k > 0 {
-					fn = fn[:k]
-				}
-				if inner == "" {
-					inner = fn
-				}
-				if strings.HasPrefix(fn, "github.com/orda-io/orda/") {
-					site = fn
-					nOrda++
-					break
-				}
-				if strings.HasPrefix(fn, "vh/") || strings.HasPrefix(fn, "main.") {
-					site = fn
-					nHarness++
-					break
+		isRead := strings.HasPrefix(l, "Read at ") || strings.HasPrefix(l, "Previous read at ")
+		isWrite := strings.HasPrefix(l, "Write at ") || strings.HasPrefix(l, "Previous write at ")
+		isAtomic := strings.HasPrefix(l, "Atomic") || strings.HasPrefix(l, "Previous atomic")
+		if !isRead && !isWrite && !isAtomic {
+			continue
+		}
+		a := &raceAccess{write: isWrite || isAtomic}
+		inner := ""
+		for j := i + 1; j < len(lines) && strings.TrimSpace(lines[j]) != ""; j += 2 {
+			fn := strings.TrimSpace(lines[j])
+			if k := strings.LastIndex(fn, "("); k > 0 {
+				fn = fn[:k]
+			}
+			if inner == "" {
+				inner = fn
+			}
+			a.frames = append(a.frames, fn)
+			isOrda := strings.HasPrefix(fn, "github.com/orda-io/orda/")
+			isHarness := strings.HasPrefix(fn, "vh/") || strings.HasPrefix(fn, "main.")
+			if a.site == "" && (isOrda || isHarness) {
+				a.site, a.harness, a.underTst = fn, isHarness, isOrda
+			}
+			if isOrda {
+				a.outer = fn
+			}
+			for _, m := range RaceLockMarkers {
+				if strings.Contains(fn, m) {
+					a.locked = true
 				}
 			}
-			if site == "" {
-				site = "?" + inner
+		}
+		if a.site == "" {
+			a.site = "?" + inner
+		}
+		accs = append(accs, a)
+	}
+	nOrda, nHarness := 0, 0
+	var tops []string
+	for _, a := range accs {
+		if a.underTst {
+			nOrda++
+		}
+		if a.harness {
+			nHarness++
+		}
+		tops = append(tops, a.site)
+	}
+	orda := nOrda > 0 && nHarness == 0
+	if orda && len(accs) == 2 && len(RaceLockMarkers) > 0 {
+		for k, a := range accs {
+			o := accs[1-k]
+			if !a.write && !a.locked && o.locked {
+				short := a.outer
+				if i := strings.LastIndex(short, "/"); i >= 0 {
+					short = short[i+1:]
+				}
+				return "read-outside-lock:" + short, true
 			}
-			tops = append(tops, site)
 		}
 	}
 	sort.Strings(tops)
-	return strings.Join(tops, " <-> "), nOrda > 0 && nHarness == 0
+	return strings.Join(tops, " <-> "), orda
 }
 
 // Discard is an io.Writer used to silence logs.
